@@ -48,6 +48,7 @@ type Spec struct {
 	variant  int    // Go struct variant of the current handle (1 = the stored structure, 5 = reordered)
 	lastHash string // last directory digest
 	hashMustHold bool
+	mute         bool
 }
 
 // failedWrite: a write call that returned an error, with the sweep taken just before it
@@ -69,6 +70,9 @@ func NewSpec(c Cfg) *Spec {
 }
 
 func (s *Spec) fail(e *Exec, prop, format string, a ...interface{}) {
+	if s.mute {
+		return // replay of a recorded (pinned release) history: its results are not judged
+	}
 	s.fails++
 	fmt.Fprintf(e.w, "! %s %s\n", prop, fmt.Sprintf(format, a...))
 }
